@@ -7,7 +7,7 @@
    manifest is written.  The commit set (which histories write) is C08_commit_set: exactly the histories that received
    records or have a child that wrote; that the session holds records for exactly the histories in scope (folder mode:
    every non-ignored history; -sf: those on the path to the named files) is carried by the lockstep correspondence. *)
-From MHL Require Import Model.Commands Proofs.BaseFacts Proofs.RouteFacts Proofs.CommitFacts Proofs.LoadFacts Proofs.CommitSetFacts Proofs.TreeFacts Proofs.PartitionFacts Proofs.CreateFacts Proofs.ReloadFacts Proofs.NestedFacts.
+From MHL Require Import Model.Commands Gen.Generated Proofs.BaseFacts Proofs.RouteFacts Proofs.CommitFacts Proofs.LoadFacts Proofs.CommitSetFacts Proofs.TreeFacts Proofs.PartitionFacts Proofs.CreateFacts Proofs.ReloadFacts Proofs.NestedFacts Proofs.LoadCompleteFacts.
 
 Theorem C08_deepest_history : forall hs root_h p, good p root_h ->
   good p (route hs root_h p) /\ (route hs root_h p = root_h \/ In (route hs root_h p) hs) /\
@@ -77,6 +77,41 @@ Print Assumptions C08_commit_set.
 Theorem C08_distinct_roots : forall C cdig t hs, wf_tree C t -> load C cdig t = inl hs -> NoDup (map lh_root hs).
 Proof. exact load_roots_NoDup. Qed.
 Print Assumptions C08_distinct_roots.
+
+(* ... and the list is COMPLETE: every folder of the tree that carries an ascmhl folder -- at any depth, below any number of
+   other histories, beside siblings with whatever names -- stands in the list `load` returns, at exactly its path, with
+   exactly the generations its own ascmhl folder holds; with distinct entry names exactly once.  (The partition below
+   routes every entry to the deepest history of THAT list; this is what makes it the deepest history of the tree.) *)
+Theorem C08_every_history_of_the_tree_is_loaded : forall C cdig t hs, load C cdig t = inl hs ->
+  forall q hq, get_hist C t q = Some hq ->
+  exists lh, In lh hs /\ lh_root lh = q /\ lh_gens lh = loaded_gens C hq /\ lh_folder lh = true.
+Proof. exact load_complete. Qed.
+Print Assumptions C08_every_history_of_the_tree_is_loaded.
+Theorem C08_every_history_of_the_tree_is_loaded_once : forall C cdig t hs, wf_tree C t -> load C cdig t = inl hs ->
+  forall q hq, get_hist C t q = Some hq ->
+  exists lh, In lh hs /\ (lh_root lh = q /\ lh_gens lh = loaded_gens C hq /\ lh_folder lh = true) /\
+             forall lh', In lh' hs -> lh_root lh' = q -> lh' = lh.
+Proof. exact load_exactly_one. Qed.
+Print Assumptions C08_every_history_of_the_tree_is_loaded_once.
+
+(* non-vacuity: two sealed folders whose names are `R` and `R1` (one the beginning of the other) side by side, a third one
+   inside the second: all three are loaded, each at its path, before the root *)
+Definition c08_cdig (c : N) : text := [c].
+Definition c08_ser (g : gen) : N := (g_no g + 10)%N.
+Definition c08_Hb (f : fmt) (b : bytes) : bytes := match f with Md5 => b | _ => 0%N :: b end.
+Definition c08_m (spec : list text) (s : text) : bool := false.
+Definition c08_seal (t : node N) : node N := fst (create_folder c08_Hb c08_m N c08_cdig c08_ser t [Md5] false false [] []).
+Definition c08_s7 : node N := Eval vm_compute in c08_seal (Dir None [([102%N], @File N [7%N])]).
+Definition c08_s9 : node N := Eval vm_compute in c08_seal (Dir None [([102%N], @File N [9%N])]).
+Definition c08_s8 : node N := Eval vm_compute in c08_seal (Dir None [([102%N], @File N [8%N]); ([83%N], c08_s9)]).
+Definition c08_t : node N := Dir None [([82%N], c08_s7); ([82%N; 49%N], c08_s8); ([103%N], @File N [5%N])].
+Example C08_all_histories_loaded_nonvacuous :
+  match load N c08_cdig c08_t with
+  | inl hs => map (fun h => (lh_root h, length (lh_gens h))) hs = [([[82%N]], 1); ([[82%N; 49%N]; [83%N]], 2); ([[82%N; 49%N]], 1); ([], 0)]
+              /\ get_hist N c08_t [[82%N; 49%N]; [83%N]] <> None
+  | inr _ => False
+  end.
+Proof. vm_compute. split; [reflexivity|discriminate]. Qed.
 
 (* THE PARTITION, for any list of loaded histories and any nesting: after the traversal the session holds, for every
    history root k, records at exactly (a) the k-relative paths of the entries whose target history is k -- `target p` is
